@@ -21,7 +21,7 @@ CHUNK = 4000
 RULE = (
     "affine ensembles (index-hashed slopes/offsets; identical realizations in 25% of merged runs); samplers: built-in "
     "norm/uniform/truncnorm/sobol/halton/lhs or inject designs identity/pm/hash/rankdef; shared or per realization; "
-    "1-6 perturbations; masks; absolute/relative magnitudes; boundary types; variable scaling; filters; stddev; NaN "
+    "1-6 perturbations; 2-3 samplers on disjoint variable sets in 25%; masks; absolute/relative magnitudes; boundary types; variable scaling; filters; stddev; NaN "
     "faults on perturbation and unperturbed rows (40% of runs); merge_realizations in 35% of runs. A case is non-trivial "
     "when the conditioning predicate of the statement holds on the reported perturbation matrix for every contributing "
     "realization and a gradient was compared; cases missing it are counted as trivial. distinct = coarse scenario key."
@@ -35,7 +35,7 @@ COMPONENTS = {
     "real": ["_gradient.py (least squares, merged estimation)", "function estimators", "samplers (built-in)", "EnsembleEvaluator", "VariableScaler"],
     "stub": ["affine world + SimEvaluator", "sim/inject sampler", "sim/scripted optimizer"],
 }
-PROBES = ["gradient_at_near_duplicate_point", "gradients_compared", "merged_compared", "merged_identical", "merged_shared", "ill_conditioned_trivial", "stddev_compared",
+PROBES = ["several_samplers_with_mask", "gradient_at_near_duplicate_point", "gradients_compared", "merged_compared", "merged_identical", "merged_shared", "ill_conditioned_trivial", "stddev_compared",
           "fixed_entries_checked", "cached_function_path", "weighted_gradient_compared", "with_failed_perturbation",
           "builtin_sampler", "filtered_gradient"]
 
@@ -60,6 +60,19 @@ def generate(seed: int, index: int, tier: str) -> dict:
     if s0["method"] == "sim/inject":
         s0["options"]["design"] = rng.choice(["hash", "hash", "identity", "pm", "rankdef"])
         s0["options"]["amp"] = rng.choice([1.0, 1.0, 3.0])
+    if nv > 1 and rng.random() < 0.25:
+        # several samplers assigned to disjoint variable sets (next to masks: each handles only its free variables)
+        ns = rng.choice([2, 2, 3])
+        shared_all = all(s.get("shared") for s in cfg["samplers"])
+        cfg["samplers"] = []
+        for _ in range(ns):
+            m = rng.choice(["norm", "uniform", "sim/inject", "sim/inject"])
+            smp = {"method": m, "shared": shared_all or rng.random() < 0.4}
+            if m == "sim/inject":
+                smp["options"] = {"design": "hash", "sseed": rng.getrandbits(20), "amp": rng.choice([1.0, 3.0])}
+            cfg["samplers"].append(smp)
+        cfg["gradient"]["samplers"] = [rng.randrange(ns) for _ in range(nv)]
+        scn["several_samplers"] = True
     # make enough perturbations likely
     if rng.random() < 0.6:
         cfg["gradient"]["number_of_perturbations"] = max(cfg["gradient"]["number_of_perturbations"], nv + rng.randint(0, 2))
@@ -175,6 +188,8 @@ def execute(scn: dict) -> dict:
                 continue
             compared += 1
             probe("gradients_compared")
+            if scn.get("several_samplers") and not mask.all():
+                probe("several_samplers_with_mask")
             if e.get("est") == "stddev":
                 probe("stddev_compared")
             scale = max(1.0, float(np.max(np.abs(target))))
